@@ -6,3 +6,4 @@ import D3.Properties.C20
 #print axioms D3.C20.insert_assert_never_fires
 #print axioms D3.C20.typed_signatures_ok
 #print axioms D3.C20.insert_index_safe
+#print axioms D3.C20.halfplane_buffer_index_safe
